@@ -1,1 +1,3 @@
 import CdiProofs.Props.C07
+import CdiProofs.Props.C15
+import CdiProofs.Props.C16
